@@ -265,9 +265,37 @@ def _uses_kwargs(h):
 	return _KW_AWARE[key]
 
 
-def _guard_kwargs(h, kwargs, what):
+_MAXPOS = {}
+
+
+def _max_positional(h):
+	"""how many positional arguments does this library model look at (None = it inspects the whole argument list)?"""
+	import inspect, re
+	key = getattr(h, '__code__', None)
+	if key is None:
+		return None
+	if key not in _MAXPOS:
+		try:
+			src = inspect.getsource(h)
+		except (OSError, TypeError):
+			_MAXPOS[key] = None
+			return None
+		body = src.split('):', 1)[1] if '):' in src else src
+		if re.search(r'len\(args\)|\*args|args\s*==|args\s*!=|in args\b|args\[\d*:|args\[-|not args|if args|and args|or args|\(args\)|, args\b|args,|list\(args|tuple\(args', body):
+			_MAXPOS[key] = None
+		else:
+			idx = [int(m) for m in re.findall(r'args\[(\d+)\]', body)]
+			_MAXPOS[key] = (max(idx) + 1) if idx else 0
+	return _MAXPOS[key]
+
+
+def _guard_kwargs(h, kwargs, what, args=None, offset=0):
 	if kwargs and not _uses_kwargs(h):
 		raise Unsupported(f'{what} called with keyword arguments {sorted(kwargs)} that its library model does not interpret')
+	if args is not None:
+		mp = _max_positional(h)
+		if mp is not None and mp >= 1 and len(args) > mp:      # a model that looks at no argument at all (an opaque result) cannot misread one
+			raise Unsupported(f'{what} called with {len(args)} positional arguments, its library model interprets {mp}')
 
 
 class Engine:
@@ -2020,7 +2048,7 @@ class Engine:
 			if h is None:
 				raise Unsupported(f'call of {f.qualname} (no library contract) at line {node.lineno}')
 			self.assumptions_used.add(f.qualname)
-			_guard_kwargs(h, kwargs, f.qualname)
+			_guard_kwargs(h, kwargs, f.qualname, args)
 			yield from h(self, st, args, kwargs, node)
 		elif isinstance(f, ExcClass):
 			yield st, ExcInstance(f.name, tuple(args))
@@ -2439,7 +2467,7 @@ class Engine:
 				if h is None:
 					raise Unsupported(f'method {name} of {obj.T.name}')
 				self.assumptions_used.add('method:' + name)
-				_guard_kwargs(h, kwargs, 'method ' + name)
+				_guard_kwargs(h, kwargs, 'method ' + name, args)
 				yield from h(self, st, obj, args, kwargs, node, site)
 				return
 			yield from self.call_repo(st, f'{q}.{name}', args, kwargs, node, site, self_val=obj)
@@ -2459,7 +2487,7 @@ class Engine:
 		if h is None:
 			raise Unsupported(f'method {name} on {obj!r} (line {node.lineno})')
 		self.assumptions_used.add('method:' + name)
-		_guard_kwargs(h, kwargs, 'method ' + name)
+		_guard_kwargs(h, kwargs, 'method ' + name, args)
 		yield from h(self, st, obj, args, kwargs, node, site)
 
 	# ---- comprehensions, yield ---------------------------------------------------------------
